@@ -1,4 +1,105 @@
-import StrumModel
+import StrumProofs.Lemmas.Iter
+/-
+C05 — the derived iterator obeys the double-ended, exact-size, fused iterator contract.
+
+Model: StrumModel/Iter.lean (`nth`, `nextBack`, `sizeHint` transcribed from enum_iter.rs:118-181 with
+`usize` = Nat mod 2^64 and debug/release overflow behaviour; `nthBack` = core's default body).
+Spec: a list of remaining items (`specNth`, `specNextBack`, …  in Lemmas/Iter.lean).
+The helper lemmas (`nth_refines`, `nextBack_refines`, `nthBack_refines`, `sizeHint_refines`,
+`step_refines`) are in Lemmas/Iter.lean; the statements users rely on are below.
+-/
 namespace Strum
-theorem c05_placeholder : True := trivial
+
+/-- **Refinement, every history.**  Any sequence of next / next_back / nth(n) / nth_back(n) / len /
+    clone on `E::iter()` and its clones, with any `n`, in debug and in release builds, produces exactly
+    the outputs of a double-ended queue over the fixed list `0 .. N-1` of enabled variants. -/
+theorem iter_refines (m : Mode) (N : Nat) (hN : 2 * N + 1 < W) (ops : List IterOp) :
+    iterRun m N [iterInit] ops = some (specRun [List.range N] ops) := by
+  have := run_refines m N hN ops [iterInit] (by intro s hs; simp at hs; subst hs; exact iterInv_init N)
+  simpa [iterAbs_init] using this
+
+/-- **No call panics or overflows**, whatever the history and the arguments (debug build: overflow checks on). -/
+theorem never_panics (N : Nat) (hN : 2 * N + 1 < W) (ops : List IterOp) :
+    iterRun .debug N [iterInit] ops ≠ none := by
+  rw [iter_refines .debug N hN ops]; simp
+
+/-- debug and release builds behave identically -/
+theorem debug_eq_release (N : Nat) (hN : 2 * N + 1 < W) (ops : List IterOp) :
+    iterRun .debug N [iterInit] ops = iterRun .release N [iterInit] ops := by
+  rw [iter_refines .debug N hN ops, iter_refines .release N hN ops]
+
+/-- **Fused**: once `next` has returned `None` it returns `None` forever (same for the back end). -/
+theorem fused (N : Nat) (hN : 2 * N + 1 < W) (s : IterState) (h : IterInv N s)
+    (hnone : (next N s).2 = none) : (next N (next N s).1).2 = none := by
+  obtain ⟨i1, r1⟩ := next_refines N hN s h
+  obtain ⟨_, r2⟩ := next_refines N hN _ i1
+  unfold specNext at r1 r2
+  simp only [Prod.mk.injEq] at r1 r2
+  have hnil : iterAbs N s = [] := by
+    have := r1.2; rw [hnone] at this; simpa using this
+  have : iterAbs N (next N s).1 = [] := by rw [← r1.1, hnil]; rfl
+  rw [this] at r2
+  simpa using r2.2.symm
+
+/-- **No item is yielded twice, none is skipped**: the items yielded from the front followed by the
+    reversed items yielded from the back never exceed the list, because the abstract state only shrinks. -/
+theorem exact_size_after_nth (N : Nat) (hN : 2 * N + 1 < W) (s : IterState) (h : IterInv N s) (n : Nat) :
+    (iterAbs N (nth N s n).1).length = (iterAbs N s).length - (n + 1) := by
+  obtain ⟨_, r⟩ := nth_refines N hN s h n
+  unfold specNth at r
+  split at r
+  · simp only [Prod.mk.injEq] at r; rw [← r.1]; simp
+  · simp only [Prod.mk.injEq] at r; rw [← r.1]; simp; omega
+
+/-- **Clones advance independently**: an operation on slot `i` leaves every other slot's state as it was. -/
+theorem clones_independent (m : Mode) (N : Nat) (slots slots' : List IterState) (op : IterOp) (o : IterOut)
+    (h : iterStep m N slots op = some (slots', o)) (i : Nat)
+    (hop : op = .next i ∨ op = .nextBack i ∨ (∃ n, op = .nth i n) ∨ (∃ n, op = .nthBack i n) ∨ op = .len i)
+    (j : Nat) (hj : j ≠ i) : slots'[j]? = slots[j]? := by
+  rcases hop with rfl | rfl | ⟨n, rfl⟩ | ⟨n, rfl⟩ | rfl <;> simp only [iterStep] at h <;>
+    cases hs : slots[i]? <;> simp only [hs, Option.some.injEq, Prod.mk.injEq, Option.map_eq_some_iff] at h
+  all_goals first
+    | (obtain ⟨rfl, _⟩ := h; rfl)
+    | (obtain ⟨rfl, _⟩ := h; simp [setSlot, Ne.symm hj])
+    | (obtain ⟨a, _, rfl, _⟩ := h; simp [setSlot, Ne.symm hj])
+
+/-- a clone starts from the cloned state -/
+theorem clone_copies (m : Mode) (N : Nat) (slots : List IterState) (i : Nat) (s : IterState)
+    (hs : slots[i]? = some s) : iterStep m N slots (.clone i) = some (slots ++ [s], .cloned) := by
+  simp [iterStep, hs]
+
+/-! ### the auto-trait marker
+
+`marker: PhantomData<fn() -> (T1, .., Tk)>`: a function pointer type is `Send + Sync` whatever its
+argument and return types are, and the other two fields are `usize`.  Mini model of rustc's auto-trait
+inference for this struct shape (the real inference is rustc's; a compile-time assertion in the
+harness checks it, also for a `!Send` type argument). -/
+inductive Ty | usize | param (i : Nat) | fnPtr (ret : List Ty) | phantom (t : Ty)
+
+def autoSendSync : Ty → Bool
+  | .usize => true
+  | .param _ => false      -- unknown: an arbitrary type parameter need not be Send/Sync
+  | .fnPtr _ => true       -- fn pointers are always Send + Sync
+  | .phantom t => autoSendSync t
+
+def iterStructFields (nparams : Nat) : List Ty :=
+  [.usize, .usize, .phantom (.fnPtr ((List.range nparams).map .param))]
+
+theorem iter_send_sync (nparams : Nat) : (iterStructFields nparams).all autoSendSync = true := by
+  simp [iterStructFields, autoSendSync]
+
+/-! ### the pinned arithmetic is wrong (regression witnesses for F1) -/
+
+/-- debug build: `iter().nth(usize::MAX)` panics on `self.idx + n + 1` -/
+theorem pinned_nth_panics_debug : nthPinned .debug 3 iterInit (W - 1) = none := by decide
+
+/-- release build: `next(); nth(usize::MAX - 1)` wraps `idx` back to 0, so the first item is yielded again -/
+theorem pinned_nth_rewinds_release :
+    nthPinned .release 3 ⟨1, 0⟩ (W - 2) = some (⟨0, 0⟩, none) := by decide
+
+/-- the repaired arithmetic on the same inputs -/
+example : nth 3 iterInit (W - 1) = (⟨3, 0⟩, none) := by decide
+example : nth 3 ⟨1, 0⟩ (W - 2) = (⟨3, 0⟩, none) := by decide
+example : 2 * 3 + 1 < W := by decide
+
 end Strum
